@@ -1,9 +1,11 @@
 package main
 
-// further ops (value trees, compat, histories) and library oracles
+// further ops (value trees, compat, histories) and their oracles
 
 func runCase2(f []string) (string, bool) {
 	return "", false
 }
 
-func cmdOracle() {}
+func oracleCase2(f []string) (string, bool) {
+	return "", false
+}
